@@ -193,6 +193,47 @@ pub open spec fn header_after(p: Prov, alias: u16) -> Seq<u8> {
     Seq::new(14, |i: int| if i == 8 { (alias % 256) as u8 } else if i == 9 { (alias / 256) as u8 } else { p.byte(i) })
 }
 
+pub open spec fn le16_at(p: Prov, byte: int) -> int { p.byte(byte) as int + 256 * (p.byte(byte + 1) as int) }
+/// `r` is the data window of a category header at word address h whose type word decodes to `ty`: it starts right after the
+/// 2-word header and is as long as the header's length word says (clamped to the 64 Ki address space like every window)
+pub open spec fn cat_hdr_type(p: Prov, h: int) -> CategoryType { CategoryType::of(le16_at(p, 2 * h) as u16) }
+pub open spec fn cat_range_of(p: Prov, ty: CategoryType, h: int, r: EepromRange) -> bool {
+    &&& 0x40 <= h <= 0xfffd
+    &&& cat_hdr_type(p, h) == ty
+    &&& r.byte_pos as int == (if 2 * (h + 2) > 0xffff { 0xffff } else { 2 * (h + 2) })
+    &&& r.end as int == (if r.byte_pos + 2 * le16_at(p, 2 * h + 2) > 0xffff { 0xffff } else { r.byte_pos + 2 * le16_at(p, 2 * h + 2) })
+}
+
+/// fixed-position EEPROM records (field layouts: derive output, C19); only their packed length matters here
+pub struct SubDeviceIdentity { pub _p: u8 }
+impl SubDeviceIdentity {
+    pub const PACKED_LEN: usize = 16;
+    pub uninterp spec fn unpack_spec(b: Seq<u8>) -> Result<SubDeviceIdentity, WireError>;
+    #[verifier::external_body]
+    pub fn unpack_from_slice(buf: &[u8]) -> (r: Result<Self, WireError>) ensures r == Self::unpack_spec(buf@) { unimplemented!() }
+}
+pub struct DefaultMailbox { pub _p: u8 }
+impl DefaultMailbox {
+    pub const PACKED_LEN: usize = 10;
+    pub uninterp spec fn unpack_spec(b: Seq<u8>) -> Result<DefaultMailbox, WireError>;
+    #[verifier::external_body]
+    pub fn unpack_from_slice(buf: &[u8]) -> (r: Result<Self, WireError>) ensures r == Self::unpack_spec(buf@) { unimplemented!() }
+}
+pub struct SiiGeneral { pub _p: u8 }
+impl SiiGeneral {
+    pub const PACKED_LEN: usize = 18;
+    pub uninterp spec fn unpack_spec(b: Seq<u8>) -> Result<SiiGeneral, WireError>;
+    #[verifier::external_body]
+    pub fn unpack_from_slice(buf: &[u8]) -> (r: Result<Self, WireError>) ensures r == Self::unpack_spec(buf@) { unimplemented!() }
+}
+impl From<WireError> for Error {
+    fn from(value: WireError) -> (r: Self) ensures r == Error::Wire(value) { Error::Wire(value) }
+}
+impl vstd::std_specs::convert::FromSpecImpl<WireError> for Error {
+    open spec fn obeys_from_spec() -> bool { true }
+    open spec fn from_spec(v: WireError) -> Error { Error::Wire(v) }
+}
+
 impl SubDeviceEeprom {
     pub open spec fn wf(&self) -> bool { self.provider.wf() }
 
@@ -219,6 +260,12 @@ impl SubDeviceEeprom {
     requires self.wf()
     ensures
         r is Ok && r->Ok_0 is Some ==> r->Ok_0->Some_0.wf() && r->Ok_0->Some_0.reader == self.provider,
+        // Some(range) => the range is the data window of a category header of the requested type found in the chain
+        r is Ok && r->Ok_0 is Some ==> exists|h: int| cat_range_of(self.provider, category, h, r->Ok_0->Some_0) && #[trigger] cat_hdr_type(self.provider, h) == category,
+@before "match category_type {"
+    proof { assert(cat_hdr_type(self.provider, h0) == category_type); }
+@loop_start 0
+    let ghost h0: int = word_addr as int;
 @loop 0
     invariant_except_break
         num_empty_categories < 32,
@@ -227,7 +274,44 @@ impl SubDeviceEeprom {
         word_addr >= 0x40,
     ensures
         __brk0 is Ok && __brk0->Ok_0 is Some ==> __brk0->Ok_0->Some_0.wf() && __brk0->Ok_0->Some_0.reader == self.provider,
+        __brk0 is Ok && __brk0->Ok_0 is Some ==> exists|h: int| cat_range_of(self.provider, category, h, __brk0->Ok_0->Some_0) && #[trigger] cat_hdr_type(self.provider, h) == category,
     decreases 0x10000 - word_addr
+@*/
+
+/*@fn file=src/subdevice/eeprom.rs impl="impl<P> SubDeviceEeprom<P>" name=identity subst="SubDeviceIdentity::buffer()=>[0u8; 16]" props=C12,C13
+    requires self.wf()
+    ensures
+        // the identity is decoded from exactly the 16 bytes at word 0x0008 (vendor, product, revision, serial)
+        r is Ok ==> SubDeviceIdentity::unpack_spec(Seq::new(16, |i: int| self.provider.byte(0x10 + i))) == Ok::<SubDeviceIdentity, WireError>(r->Ok_0),
+@before "Ok(SubDeviceIdentity::unpack_from_slice(&buf)?)"
+    proof { assert(buf@ =~= Seq::new(16, |i: int| self.provider.byte(0x10 + i))); }
+@try "SubDeviceIdentity::unpack_from_slice(&buf)?"
+@*/
+
+/*@fn file=src/subdevice/eeprom.rs impl="impl<P> SubDeviceEeprom<P>" name=mailbox_config subst="DefaultMailbox::buffer()=>[0u8; 10]" props=C12,C13
+    requires self.wf()
+    ensures
+        // the standard mailbox configuration is decoded from exactly the 10 bytes at word 0x0018
+        r is Ok ==> DefaultMailbox::unpack_spec(Seq::new(10, |i: int| self.provider.byte(0x30 + i))) == Ok::<DefaultMailbox, WireError>(r->Ok_0),
+@before "Ok(DefaultMailbox::unpack_from_slice(&buf)?)"
+    proof { assert(buf@ =~= Seq::new(10, |i: int| self.provider.byte(0x30 + i))); }
+@try "DefaultMailbox::unpack_from_slice(&buf)?"
+@*/
+
+/*@fn file=src/subdevice/eeprom.rs impl="impl<P> SubDeviceEeprom<P>" name=general subst="SiiGeneral::buffer()=>[0u8; 18]" props=C12,C13
+    requires self.wf()
+    ensures
+        // the General record is decoded from exactly the first 18 data bytes of a category whose header says "General"
+        r is Ok ==> exists|h: int| #[trigger] cat_hdr_type(self.provider, h) == CategoryType::General && 0x40 <= h <= 0xfffd
+            && SiiGeneral::unpack_spec(Seq::new(18, |i: int| self.provider.byte(2 * (h + 2) + i))) == Ok::<SiiGeneral, WireError>(r->Ok_0),
+@before "Ok(SiiGeneral::unpack_from_slice(&buf)?)"
+    proof {
+        let hh = choose|h: int| cat_range_of(self.provider, CategoryType::General, h, reader0) && #[trigger] cat_hdr_type(self.provider, h) == CategoryType::General;
+        assert(buf@ =~= Seq::new(18, |i: int| self.provider.byte(2 * (hh + 2) + i)));
+    }
+@after ".ok_or(Error::Eeprom(EepromError::NoCategory))?;"
+    let ghost reader0 = reader;
+@try "SiiGeneral::unpack_from_slice(&buf)?"
 @*/
 
 /*@fn file=src/subdevice/eeprom.rs impl="impl<P> SubDeviceEeprom<P>" name=size subst="u16::from_le_bytes=>u16_from_le_bytes@@u16::buffer()=>[0u8; 2]" props=C12,C13
